@@ -100,10 +100,6 @@ pub assume_specification<'a, P: core::str::pattern::Pattern>[ str::trim_end_matc
         pat_kind(pat) is Pred ==> r@ == trim_end_where(s@, pk_pred(pat_kind(pat))),
 ;
 
-pub assume_specification[ String::len ](s: &String) -> (r: usize)
-    ensures
-        r as nat == blen(s@),
-;
 
 /// str::repeat: n copies of the string
 pub assume_specification[ str::repeat ](s: &str, n: usize) -> (r: String)
@@ -126,3 +122,12 @@ pub assume_specification<'a, P: core::str::pattern::Pattern>[ str::ends_with::<P
     ensures
         r == pk_ends_with(pat_kind(pat), s@),
 ;
+
+/// R6: `s.lines().collect::<Vec<_>>()` (std docs of str::lines)
+#[verifier::external_body]
+pub fn str_lines_vec<'a>(s: &'a str) -> (v: Vec<&'a str>)
+    ensures
+        v@.map_values(|l: &str| l@) == lines_of(s@),
+{
+    s.lines().collect::<Vec<_>>()
+}
